@@ -225,6 +225,28 @@ func c05Run(c *Ctx) {
 			}
 		}
 	}
+	// 2b'. an arm that is itself an unbraced loop (or a loop followed by the other arm): the else still
+	// belongs to the if, exactly one arm runs, and a break / continue in the arm belongs to the enclosing loop
+	for _, kv := range []string{"0", "1", "2"} {
+		for _, loop := range []string{
+			While(`c("w", n < 2)`, "{ n = n + 1; "+Print(`"in loop"`)+" }"),
+			For(Var("j", "0"), `c("f", j < 2)`, "j = j + 1", "{ "+Print(`"in for"`)+" "+If("j == 1", Break())+" }"),
+			For(";", "", "", "{ "+Print(`"once"`)+" "+Break()+" }"),
+			While(`c("w2", n < 1)`, "n = n + 1;"),
+			While(False(), Print(`"never"`)),
+		} {
+			src := pre + Lines(Var("k", kv), Var("n", "0"),
+				K["if"]+" ("+`c("cond", k == 1)`+") "+loop+" "+K["else"]+" "+Print(`"else arm"`),
+				Print(`"mid"`), "n = 0;",
+				K["if"]+" (k == 0) "+Print(`"k0"`)+" "+K["else"]+" "+K["if"]+" (k == 1) "+loop+" "+K["else"]+" { "+Print(`"k2"`)+" }",
+				Print(`"mid2"`), "n = 0;",
+				For(Var("r", "0"), "r < 3", "r = r + 1", "{ "+K["if"]+" (r == k) "+loop+" "+K["else"]+" { "+Print(`"skip " + r`)+" "+Continue()+" } "+Print(`"tail " + r`)+" n = 0; }"),
+				Print(`"end"`))
+			if c.Mine() {
+				c05Judge(c, &Case{Gen: "loop-as-arm", Src: src})
+			}
+		}
+	}
 	// 2c. conditions that are comparisons whose operands are traced probes yielding every kind of value:
 	// each operand is evaluated once per test, whatever it yields
 	for _, items := range []string{`["a", "b", nil]`, `[1, 2, "", 3]`, `[` + True() + `, ` + True() + `, ` + False() + `]`, `["x", "x", "y"]`, `[nil, nil, 0]`, `[[1], [2], nil]`} {
@@ -379,6 +401,6 @@ func init() {
 		Assumptions: []string{"every generated loop is bounded by construction; programs the model cannot finish in 200000 steps are skipped"},
 		Run:         c05Run,
 		Judge:       c05Judge,
-		MustCount:   func(c *Ctx) []string { return []string{"gen:loop-skeletons", "gen:empty-bodies", "gen:long-running-loops", "gen:arm-selection", "gen:stray-signals", "gen:stray-signals-after-history", "gen:else-if-chains", "gen:comparison-conditions", "gen:reentrant-loops", "gen:repl-after-stray", "breaks_taken", "continues_taken", "then_arms", "else_arms", "fault:StrayBreak", "fault:StrayContinue", "fault:StrayReturn", "cli_runs"} },
+		MustCount:   func(c *Ctx) []string { return []string{"gen:loop-skeletons", "gen:empty-bodies", "gen:long-running-loops", "gen:arm-selection", "gen:stray-signals", "gen:stray-signals-after-history", "gen:else-if-chains", "gen:comparison-conditions", "gen:loop-as-arm", "gen:reentrant-loops", "gen:repl-after-stray", "breaks_taken", "continues_taken", "then_arms", "else_arms", "fault:StrayBreak", "fault:StrayContinue", "fault:StrayReturn", "cli_runs"} },
 	})
 }
